@@ -1,7 +1,7 @@
 (* C15 — the annotation grammar is exactly the documented one. Statements only.
    The expressions are regenerated from the source on every run (Go's own regexp/syntax parses the literals); the
    theorems are about the backtracking matcher of Model/Regex.v (library model of package regexp) on those trees. *)
-From Coq Require Import List Ascii String Bool NArith.
+From Coq Require Import List Ascii String Bool NArith Arith Lia.
 From GG Require Import Base.Strs Model.RegexSyntax Model.Regex Model.Annot Extracted Exec Proofs.RegexProofs.
 Import ListNotations.
 Local Open Scope string_scope.
@@ -75,6 +75,106 @@ Example C15_implements_nonvacuous :
   = [Some (true, "io", "Reader"); Some (false, "", "Reader"); None; None; None; None].
 Proof. vm_compute. reflexivity. Qed.
 
+(* ---- the list annotations: @constructor, @packageonly, @ignore ---- *)
+Definition PKGC : list (N * N) := [(45, 57); (65, 90); (95, 95); (97, 122)]%N.      (* - . / 0-9 A-Z _ a-z *)
+Definition CODEC : list (N * N) := [(48, 57); (65, 90); (97, 122)]%N.               (* 0-9 A-Z a-z *)
+
+(* in the source expression the first identifier of @constructor is written out (head class, tail class) in line with what
+   follows; concatenation is associative for the matcher, so this is the list shape with an identifier item *)
+Definition ctor_re_flat : re :=
+  RCat RBot (RCat (RStar (RCls WS)) (RCat (lit slashes) (RCat (RStar (RCls WS)) (RCat (lit (kw "@constructor"))
+    (RCat (ROpt (RCat (RPlus (RCls WS)) (RGrp 1
+       (RCat (RCls HEADC) (RCat (RStar (RCls WORD)) (RCat (RStar (body ident_item)) (ROpt (RCat (RStar (RCls WS)) (RCls COMMA)))))))))
+       (RCat (tail_re WS) REot)))))).
+
+Theorem C15_list_expressions :
+  re_constructor = ctor_re_flat /\
+  re_packageonly = list_annot_re (kw "@packageonly") (run_item PKGC) /\
+  re_ignore = list_annot_re (kw "@ignore") (run_item CODEC).
+Proof. repeat split; vm_compute; reflexivity. Qed.
+
+Lemma ctor_flat_same text : re_find ctor_re_flat text = re_find (list_annot_re (kw "@constructor") ident_item) text.
+Proof. unfold ctor_re_flat, list_annot_re. rewrite !re_find_anchored. reflexivity. Qed.
+
+Lemma run_head cl x xs n : run_len cl (x :: xs) = Some n -> in_cls cl x = true.
+Proof. unfold run_len. destruct (in_cls cl x); [reflexivity|discriminate]. Qed.
+Lemma ident_head x xs n : ident_len (x :: xs) = Some n -> in_cls WORD x = true.
+Proof. unfold ident_len. destruct (in_cls HEADC x) eqn:E; [intros _; apply headc_word; exact E|discriminate]. Qed.
+
+(* the text of the list group: None = not an annotation line; Some None = the annotation without a list; Some (Some g) = the list g.
+   The list is: an item, then any number of "blanks , blanks item", then optionally "blanks ,", taken as far as possible such
+   that the free-text tail follows; items are maximal runs *)
+Definition ctor_line (text : string) := spec_list_line ident_len (kw "@constructor") (list_ascii_of_string text).
+Definition pkgo_line (text : string) := spec_list_line (run_len PKGC) (kw "@packageonly") (list_ascii_of_string text).
+Definition ign_line (text : string) := spec_list_line (run_len CODEC) (kw "@ignore") (list_ascii_of_string text).
+
+Theorem C15_constructor_exact :
+  forall text, x_parse_constructor text =
+    match ctor_line text with
+    | Some (Some g) => let names := trim (string_of_list_ascii g) in
+                       if String.eqb names "" then None else match split_items names with [] => None | l => Some l end
+    | _ => None
+    end.
+Proof.
+  intros text. unfold x_parse_constructor, parse_constructor, ctor_line. destruct C15_list_expressions as [-> _]. rewrite ctor_flat_same.
+  pose proof (list_line_group ident_item WORD ident_len ident_item_ok ident_head ws_not_word eq_refl "@"%char (list_ascii_of_string "constructor") text eq_refl) as H.
+  unfold kw. cbn [list_ascii_of_string] in *.
+  destruct (re_find _ text) as [c|].
+  - destruct H as [g [-> Hg]]. rewrite Hg. destruct g as [t|]; reflexivity.
+  - rewrite H. reflexivity.
+Qed.
+
+Theorem C15_packageonly_exact :
+  forall text, x_parse_packageonly text =
+    match pkgo_line text with
+    | Some (Some g) => let pk := trim (string_of_list_ascii g) in if String.eqb pk "" then Some [] else Some (split_items pk)
+    | Some None => Some []
+    | None => None
+    end.
+Proof.
+  intros text. unfold x_parse_packageonly, parse_packageonly, pkgo_line. destruct C15_list_expressions as [_ [-> _]].
+  pose proof (list_line_group (run_item PKGC) PKGC (run_len PKGC) (run_item_ok PKGC) (run_head PKGC)
+                (disjoint_sound WS PKGC eq_refl) eq_refl "@"%char (list_ascii_of_string "packageonly") text eq_refl) as H.
+  unfold kw. cbn [list_ascii_of_string] in *.
+  destruct (re_find _ text) as [c|].
+  - destruct H as [g [-> Hg]]. rewrite Hg. destruct g as [t|]; reflexivity.
+  - rewrite H. reflexivity.
+Qed.
+
+Theorem C15_ignore_exact :
+  forall text, x_parse_ignore text =
+    match ign_line text with
+    | Some (Some g) => let cs := trim (string_of_list_ascii g) in
+                       if String.eqb cs "" then None else match map upper (split_items cs) with [] => None | l => Some l end
+    | _ => None
+    end.
+Proof.
+  intros text. unfold x_parse_ignore, parse_ignore, ign_line. destruct C15_list_expressions as [_ [_ ->]].
+  pose proof (list_line_group (run_item CODEC) CODEC (run_len CODEC) (run_item_ok CODEC) (run_head CODEC)
+                (disjoint_sound WS CODEC eq_refl) eq_refl "@"%char (list_ascii_of_string "ignore") text eq_refl) as H.
+  unfold kw. cbn [list_ascii_of_string] in *.
+  destruct (re_find _ text) as [c|].
+  - destruct H as [g [-> Hg]]. rewrite Hg. destruct g as [t|]; reflexivity.
+  - rewrite H. reflexivity.
+Qed.
+
+(* wherever the list is taken to end, the free-text tail follows: a list is never cut in the middle of a word *)
+Theorem C15_list_is_followed_by_the_tail :
+  forall item_len s5 n, spec_list item_len s5 = Some n -> tail_ok WS (skipn n s5) = true.
+Proof.
+  intros item_len s5 n. unfold spec_list. destruct (item_len s5) as [n0|]; [|discriminate]. intros H.
+  destruct (chain_end_sound item_len _ _ _ _ H) as [H1 H2]. replace n with (n0 + (n - n0)) by lia. rewrite skipn_add. exact H2.
+Qed.
+
+Example C15_lists_nonvacuous :
+  map x_parse_constructor ["// @constructor New, Make"; "// @constructor New ,Old;"; "// @constructor New,Make, because"; "// @constructor 9New"; "// @constructor"; "// @constructorNew"]
+  = [Some ["New"; "Make"]; Some ["New"]; Some ["New"; "Make"; "because"]; None; None; None] /\
+  map x_parse_packageonly ["// @packageonly"; "// @packageonly a/b.c-d , x"; "// @packageonly p;q"; "// @packageonlyx"]
+  = [Some []; Some ["a/b.c-d"; "x"]; Some []; None] /\
+  map x_parse_ignore ["// @ignore imm01, Ctor"; "// @ignore IMM-01"; "// @ignore ALL because"; "// @ignore"]
+  = [Some ["IMM01"; "CTOR"]; None; Some ["ALL"]; None].
+Proof. vm_compute. repeat split; reflexivity. Qed.
+
 Example C15_nonvacuous :
   map x_parse_immutable ["// @immutable"; "  //@immutable  because"; "// @immutablex"; "// @Immutable"; "// see @immutable"; "/* @immutable */"; "// @immutable;"]
   = [true; true; false; false; false; false; false].
@@ -89,3 +189,8 @@ Print Assumptions C15_flag_line_shape.
 Print Assumptions C15_free_text_shape.
 Print Assumptions C15_implements_expression.
 Print Assumptions C15_implements_exact.
+Print Assumptions C15_list_expressions.
+Print Assumptions C15_constructor_exact.
+Print Assumptions C15_packageonly_exact.
+Print Assumptions C15_ignore_exact.
+Print Assumptions C15_list_is_followed_by_the_tail.
